@@ -20,6 +20,7 @@ use syn::*;
 #[derive(Debug, Clone)]
 pub enum TErr {
     NeedMonad,
+    NeedWrap,
     Unsupported(String),
 }
 pub type R = std::result::Result<String, TErr>;
@@ -70,6 +71,8 @@ pub struct Ctx<'a> {
     env: Vec<(String, Tm)>,
     names: BTreeMap<String, usize>,
     ret: Ty,
+    wrap: bool,
+    saw_early: bool,
 }
 
 pub struct Out {
@@ -78,30 +81,35 @@ pub struct Out {
 }
 
 pub fn translate(spec: &Spec, f_sig: &Signature, body: &Block, sigs: &BTreeMap<String, Sig>) -> std::result::Result<Out, TErr> {
-    match translate_mode(spec, f_sig, body, sigs, false) {
-        Err(TErr::NeedMonad) => translate_mode(spec, f_sig, body, sigs, true),
-        r => r,
+    for (monadic, wrap) in [(false, false), (false, true), (true, false), (true, true)] {
+        match translate_mode(spec, f_sig, body, sigs, monadic, wrap) {
+            Err(TErr::NeedMonad) => continue,
+            Err(TErr::NeedWrap) => continue,
+            r => return r,
+        }
     }
+    Err(TErr::Unsupported("internal: no translation mode applies".into()))
 }
 
-fn translate_mode(spec: &Spec, f_sig: &Signature, body: &Block, sigs: &BTreeMap<String, Sig>, monadic: bool) -> std::result::Result<Out, TErr> {
+fn translate_mode(spec: &Spec, f_sig: &Signature, body: &Block, sigs: &BTreeMap<String, Sig>, monadic: bool, wrap: bool) -> std::result::Result<Out, TErr> {
     let ret = match &f_sig.output {
         ReturnType::Default => Ty::Unit,
         ReturnType::Type(_, t) => spec.ty_of(t),
     };
-    let mut c = Ctx { spec, sigs, monadic, env: vec![], names: BTreeMap::new(), ret: ret.clone() };
+    let mut c = Ctx { spec, sigs, monadic, env: vec![], names: BTreeMap::new(), ret: ret.clone(), wrap, saw_early: false };
     let mut binders: Vec<String> = vec![];
+    if spec.fns.iter().any(|f| f.coq_ty.ends_with("-> R")) {
+        // the result type of an opaque callee is abstract
+        binders.push("{R : Type}".into());
+        c.names.insert("R".into(), 1);
+    }
     if monadic {
         binders.push("(m : mode)".into());
         c.names.insert("m".into(), 1);
     }
-    for x in &spec.extra {
-        c.names.insert(x.param.to_string(), 1);
-        binders.push(format!("({} : {})", x.param, x.coq_ty));
-    }
-    for x in &spec.fns {
-        c.names.insert(x.param.to_string(), 1);
-        binders.push(format!("({} : {})", x.param, x.coq_ty));
+    for (p, t) in spec.extra_params() {
+        c.names.insert(p.clone(), 1);
+        binders.push(format!("({} : {})", p, t));
     }
     let mut nparams = 0;
     for a in &f_sig.inputs {
@@ -130,13 +138,18 @@ fn translate_mode(spec: &Spec, f_sig: &Signature, body: &Block, sigs: &BTreeMap<
     let stmts: Vec<Stmt> = match &spec.locals {
         None => body.stmts.clone(),
         Some(ls) => {
-            // keep the statements up to (and including) the `let` that binds the last requested local
+            // keep the shortest prefix of the body in which every requested local has been `let`-bound
             let mut last = None;
+            let mut seen: Vec<String> = vec![];
             for (i, s) in body.stmts.iter().enumerate() {
                 if let Stmt::Local(l) = s {
                     if let Some(n) = pat_ident(&l.pat) {
-                        if ls.iter().any(|x| *x == n) {
-                            last = Some(i);
+                        if ls.iter().any(|x| *x == n) && !seen.contains(&n) {
+                            seen.push(n);
+                            if seen.len() == ls.len() {
+                                last = Some(i);
+                                break;
+                            }
                         }
                     }
                 }
@@ -157,7 +170,7 @@ fn translate_mode(spec: &Spec, f_sig: &Signature, body: &Block, sigs: &BTreeMap<
                 }
             }
             let tup = if parts.len() == 1 { parts[0].clone() } else { format!("({})", parts.join(", ")) };
-            let v = format!("(Some {})", tup);
+            let v = if c.wrap { format!("(Some {})", tup) } else { tup };
             return Ok(if c.monadic { format!("Val {}", v) } else { v });
         }
         c.finish(tm)
@@ -168,11 +181,17 @@ fn translate_mode(spec: &Spec, f_sig: &Signature, body: &Block, sigs: &BTreeMap<
     } else {
         c.stmts(&stmts, fin)?
     };
+    if c.saw_early && !wrap {
+        return Err(TErr::NeedWrap);
+    }
+    if wrap && !c.saw_early {
+        return Err(TErr::NeedMonad); // (false,true) without early return: go on to the monadic attempts
+    }
     let def = format!("Definition {} {} :=\n{}.", spec.name, binders.join(" "), term);
     let sig = Sig {
         coq: spec.name.to_string(),
         monadic,
-        extra: spec.extra.iter().map(|x| x.param.to_string()).chain(spec.fns.iter().map(|x| x.param.to_string())).collect(),
+        extra: spec.extra_params().into_iter().map(|(p, _)| p).collect(),
         nparams,
         ret,
     };
@@ -229,7 +248,8 @@ impl<'a> Ctx<'a> {
     /// value of the function (tail expression or `return e`)
     fn finish(&mut self, tm: Tm) -> R {
         if self.spec.locals.is_some() {
-            // `return;` before the requested locals exist
+            // `return;` before the requested locals exist: the kernel's value becomes an option
+            self.saw_early = true;
             return Ok(if self.monadic { "Val None".into() } else { "None".into() });
         }
         if !self.spec.effects.is_empty() {
@@ -443,7 +463,7 @@ impl<'a> Ctx<'a> {
             return k(self, Tm::atom(x.param, x.ty.clone()));
         }
         if let Some((_, v, ty)) = self.spec.consts.iter().find(|(p, _, _)| *p == key) {
-            return k(self, Tm::atom(*v, ty.clone()));
+            return k(self, Tm::atom(v.clone(), ty.clone()));
         }
         match e {
             Expr::Paren(p) => self.expr(&p.expr, k),
@@ -895,6 +915,18 @@ impl<'a> Ctx<'a> {
                 });
             }
         }
+        // uN::to_le / to_be / from_le / from_be: the opaque byte-order conversion `cv kind bytes value`
+        if self.spec.endian && path.segments.len() == 2 && args.len() == 1 {
+            let bytes = match path.segments[0].ident.to_string().as_str() { "u16" => Some((2, 16)), "u32" => Some((4, 32)), "u64" | "usize" => Some((8, 64)), _ => None };
+            if let (Some((bytes, bits)), true) = (bytes, ["to_le", "to_be", "from_le", "from_be"].contains(&last.as_str())) {
+                return self.expr(args[0], &|c, t| {
+                    if !is_int(&t.ty) {
+                        return unsup("byte-order conversion of a non-integer", call.span());
+                    }
+                    k(c, Tm::app(format!("cv {} {} {}", last, bytes, t.s), Ty::Int(bits)))
+                });
+            }
+        }
         // std::cmp::min / max
         if (last == "min" || last == "max") && args.len() == 2 && (path.segments.len() == 1 || path.segments.iter().any(|s| s.ident == "cmp")) {
             return self.exprs(&args, &|c, t| k(c, Tm::app(format!("N.{} {} {}", last, t[0].s, t[1].s), t[0].ty.clone())));
@@ -970,7 +1002,9 @@ impl<'a> Ctx<'a> {
             if let Some(sig) = self.sigs.get(&key).cloned() {
                 return self.exprs(&args, &|c, t| c.call_kernel(&sig, t, line, k));
             }
-            return unsup(&format!("method `self.{}` (not a kernel of this group, not declared opaque)", name), mc.span());
+            if !self.spec.extra.iter().any(|x| x.pat == "self") {
+                return unsup(&format!("method `self.{}` (not a kernel of this group, not declared opaque)", name), mc.span());
+            }
         }
         self.expr(&mc.receiver, &|c, recv| {
             match (&recv.ty, name.as_str()) {
@@ -1034,6 +1068,9 @@ impl<'a> Ctx<'a> {
                             if c.spec.group != "Address" {
                                 sig.coq = format!("Gen.Address.{}", sig.coq);
                             }
+                            // the receiver is the callee's `self.0`
+                            sig.extra.clear();
+                            sig.nparams += 1;
                             c.exprs(&args, &|c, t| {
                                 let mut all = vec![recv.clone()];
                                 all.extend(t);
